@@ -718,6 +718,10 @@ def replay(prop, path):
     model = [c['model']] if c.get('model') is not None else None
     if rp.get('interpreter_flags'):
         print('interpreter flags ' + ' '.join(rp['interpreter_flags']))
+    if rp.get('environment'):
+        print('environment ' + ' '.join(f'{k}={v}' for k, v in rp['environment'].items()))
+    if rp.get('interpreter'):
+        print('interpreter ' + rp['interpreter'] + ('' if os.path.exists(rp['interpreter']) else ' (not present here: run under the default one)'))
     print('input    ' + c['line'][:2000])
     print('code     ' + str(c['real'])[:2000])
     print('model    ' + (model[0][:2000] if model else '(model driver unavailable)'))
